@@ -219,7 +219,8 @@ class C16(PropCheck):
                   "crl_number_increasing, revoke_idempotent, revoke_preserves_others, served_crl_lists_serial, revoke_restart "
                   "for every crash prefix, revoke_fault_retry for every fault position / crash prefix followed by a retry "
                   "(findings F5/F16, repaired by e3ecbb3), served_crl_lists_serial_concurrent for every schedule of a revoke against "
-                  "one other rebuilding request (+ _cex for a coalescing builder), crl_number_reuse_cex for finding F17); "
+                  "one other rebuilding request (+ _cex for a coalescing builder), crl_number_increasing over every history "
+                  "including every fault / crash cut (finding F17, repaired by persisting the CRL number first)); "
                   "the model is tied to the Go code "
                   "by a differential stream of random histories, all single-fault positions and all crash prefixes of "
                   "revoke / rotate on every run, and the property's predicate is evaluated directly on every CRL the "
